@@ -8,35 +8,3 @@ impl Adf {
         &&& forall|k: int| 0 <= k < p_order(p).len() ==> den(self.bdd.nodes@, self.ac@[#[trigger] p_order(p)[k] as int].0 as int) == fsem(p_formula(p, k), &p_vc(p))
     }
 }
-pub proof fn lemma_atoms_mono(f: Formula, vc: &VarContainer, n: int, m: int)
-    requires atoms_ok(f, vc, n), n <= m,
-    ensures atoms_ok(f, vc, m)
-    decreases f
-{
-    match f {
-        Formula::Bot => {}, Formula::Top => {}, Formula::Atom(a) => {},
-        Formula::Not(x) => { lemma_atoms_mono(*x, vc, n, m); }
-        Formula::And(x, y) => { lemma_atoms_mono(*x, vc, n, m); lemma_atoms_mono(*y, vc, n, m); }
-        Formula::Or(x, y) => { lemma_atoms_mono(*x, vc, n, m); lemma_atoms_mono(*y, vc, n, m); }
-        Formula::Imp(x, y) => { lemma_atoms_mono(*x, vc, n, m); lemma_atoms_mono(*y, vc, n, m); }
-        Formula::Xor(x, y) => { lemma_atoms_mono(*x, vc, n, m); lemma_atoms_mono(*y, vc, n, m); }
-        Formula::Iff(x, y) => { lemma_atoms_mono(*x, vc, n, m); lemma_atoms_mono(*y, vc, n, m); }
-    }
-}
-// a formula over declared statements denotes a function of the declared statements only
-pub proof fn lemma_fsem_dep(f: Formula, vc: &VarContainer, n: int)
-    requires atoms_ok(f, vc, n),
-    ensures dep_below(fsem(f, vc), n)
-    decreases f
-{
-    match f {
-        Formula::Bot => { lemma_dep_const(false, n); }, Formula::Top => { lemma_dep_const(true, n); },
-        Formula::Atom(a) => { lemma_dep_var(vc_index(vc, a@).unwrap(), n); },
-        Formula::Not(x) => { lemma_fsem_dep(*x, vc, n); lemma_dep_not(fsem(*x, vc), n); }
-        Formula::And(x, y) => { lemma_fsem_dep(*x, vc, n); lemma_fsem_dep(*y, vc, n); lemma_dep_bin(fsem(*x, vc), fsem(*y, vc), n); }
-        Formula::Or(x, y) => { lemma_fsem_dep(*x, vc, n); lemma_fsem_dep(*y, vc, n); lemma_dep_bin(fsem(*x, vc), fsem(*y, vc), n); }
-        Formula::Imp(x, y) => { lemma_fsem_dep(*x, vc, n); lemma_fsem_dep(*y, vc, n); lemma_dep_bin(fsem(*x, vc), fsem(*y, vc), n); }
-        Formula::Xor(x, y) => { lemma_fsem_dep(*x, vc, n); lemma_fsem_dep(*y, vc, n); lemma_dep_bin(fsem(*x, vc), fsem(*y, vc), n); }
-        Formula::Iff(x, y) => { lemma_fsem_dep(*x, vc, n); lemma_fsem_dep(*y, vc, n); lemma_dep_bin(fsem(*x, vc), fsem(*y, vc), n); }
-    }
-}
